@@ -210,6 +210,36 @@ class Rec:
         self.res = right.split(' ') if right else []
 
 
+def release_parity(chk, op, recs, features='ibig,rayon'):
+    """the same op in the release build (optimised, NO debug assertions): every record must be bitwise the record of the debug
+    build (code that does its work inside a debug_assert!, overflow that wraps instead of panicking, ...)"""
+    if chk.only is not None:
+        return
+    binary, blog = cargo_build(features, release=True)
+    if binary is None:
+        chk.violation('build', 'release harness does not build against /repo', None)
+        chk.notes.append(blog[-1500:])
+        return
+    rel_f = os.path.join(chk.wdir(), op + '_release.rec')
+    rc, _, err = run_harness(binary, op, chk.seed, chk.tier, rel_f)
+    if rc != 0:
+        chk.violation('harness', 'release harness op %s failed: %s' % (op, err[-300:]), None)
+        return
+    rel = {(r.op, r.id): r for r in read_records(rel_f)}
+    same = 0
+    for r in recs:
+        q = rel.get((r.op, r.id))
+        if q is None or q.line != r.line:
+            a, b = r.line.split(' '), (q.line.split(' ') if q is not None else [])
+            k = next((i for i, (x, y) in enumerate(zip(a, b)) if x != y), min(len(a), len(b)))
+            chk.violation('impl-vs-impl', 'op %s gives another result in the release build (no debug assertions) than in the debug build: record %d (%s) differs from token %d on (%s vs %s)'
+                          % (op, r.id, r.family, k, ' '.join(a[k:k + 6])[:120], ' '.join(b[k:k + 6])[:120]),
+                          {'op': op, 'ids': [r.id], 'family': r.family, 'build': 'release vs debug', 'record': r.line[:3000]}, key='release-parity')
+            break
+        same += 1
+    chk.extra_cov['records_bitwise_equal_in_release_build_' + op] = same
+
+
 def read_records(path):
     with open(path) as f:
         return [Rec(l) for l in f if l.strip()]
